@@ -57,6 +57,10 @@ def run(tier):
                                   maxcols=250 if quick else 1200))
     for c in stock[:4 if quick else 20]:
         tasks.append(dict(sid="jac[%s|tds|altered]" % c, case=c, phase="tds", ipadd=1, maxcols=250 if quick else 1200, alter_after_init=True))
+    for c in stock[:4 if quick else 20]:
+        for ipadd in (1, 0):
+            tasks.append(dict(sid="jac[%s|pflow|ipadd=%d|after reconnection]" % (c, ipadd), case=c, phase="pflow", ipadd=ipadd,
+                              maxcols=250 if quick else 1200, history=True))
     res = run_tasks("vh.pfdrv:jac_stock", tasks, nproc=NCPU, timeout=1800)
     worst = 0.0
     skipped = 0
